@@ -130,22 +130,23 @@ func VerifC33New() {
 	}
 }
 
-// vdSource: a symbolic valid date with concrete century and month (the calendar conversion is
-// only decidable case by case); the year-in-century comes in three bands so that dates far from
-// a century boundary keep a constant century through small offsets.
+// vdYear: a symbolic year 0..2999 written as 400*c4 + 100*cb + 4*q + b: with the year in this
+// form every division of the calendar arithmetic has a quotient that is linear in c4 and q plus a
+// small case table, which is what the solver can decide.
+func vdYear() int {
+	c4 := rt.IntRange("c4", 0, 7)
+	cb := rt.IntRange("cb", 0, 3)
+	q := rt.IntRange("q", 0, 24)
+	b := rt.IntRange("b", 0, 3)
+	y := 400*c4 + 100*cb + 4*q + b
+	rt.Assume(y <= 2999)
+	return y
+}
+
+// vdSource: a symbolic valid date with a concrete month.
 func vdSource() (y, m, d, h, mi, s, ms int) {
-	c := vdCentury("century")
+	y = vdYear()
 	m = rt.Pick("month", 12) + 1
-	var yy int
-	switch rt.Pick("band", 3) {
-	case 0:
-		yy = rt.IntRange("yy", 3, 96)
-	case 1:
-		yy = rt.IntRange("yy", 0, 2)
-	case 2:
-		yy = rt.IntRange("yy", 97, 99)
-	}
-	y = c*100 + yy
 	d = rt.IntRange("day", 1, 31)
 	h, mi, s, ms = rt.IntRange("hour", 0, 23), rt.IntRange("minute", 0, 59), rt.IntRange("second", 0, 59), rt.IntRange("ms", 0, 999)
 	rt.Assume(d <= vdMonthLen(y, m))
@@ -196,6 +197,10 @@ func VerifC33PlusDays() {
 	rt.Observe("date", r.date)
 	rt.Observe("time", r.time)
 	want := vdPack(y2, m2, d2, h, mi, s, ms)
-	rt.Assert("plusdays/gregorian", r == want)
+	rt.Assert("plusdays/year", r.Year() == y2)
+	rt.Assert("plusdays/month", r.Month() == m2)
+	rt.Assert("plusdays/day", r.Day() == d2)
+	rt.Assert("plusdays/time-unchanged", r.time == src.time)
+	rt.Assert("plusdays/representation", r == want)
 	rt.Assert("minusdays/inverse-of-plus", rt.And(want.MinusDays(src) == k, src.MinusDays(want) == -k))
 }
